@@ -12,11 +12,98 @@ package forkexec
 //@   requires forall k int :: 0 <= k && k < len(files) ==> files[k] < 2147483648 || files[k] == 18446744073709551615
 //@   assigns nothing
 //@   ensures len(result.0) == len(files) && fresh(result.0) && soff(result.0) == 0
-//@   ensures forall k int :: 0 <= k && k < len(files) ==> result.0[k] == int(files[k])
+//@   ensures forall k int :: 0 <= k && k < len(files) ==> (files[k] == 18446744073709551615 ==> result.0[k] == -1) && (files[k] != 18446744073709551615 ==> result.0[k] == files[k])
 //@   ensures result.1 > len(files)
-//@   ensures forall k int :: 0 <= k && k < len(files) ==> result.1 > int(files[k])
+//@   ensures forall k int :: 0 <= k && k < len(files) ==> result.1 > result.0[k]
 //@   ensures result.1 <= 2147483648 || result.1 <= len(files) + 1
 //@   loop 0: invariant -1 <= rangeindex && rangeindex < len(files)
 //@   loop 0: invariant nextfd >= len(files) && (nextfd < 2147483648 || nextfd == len(files))
-//@   loop 0: invariant forall k int :: 0 <= k && k <= rangeindex ==> fd[k] == int(files[k]) && nextfd >= int(files[k])
+//@   loop 0: invariant forall k int :: 0 <= k && k <= rangeindex ==> (files[k] == 18446744073709551615 ==> fd[k] == -1) && (files[k] != 18446744073709551615 ==> fd[k] == files[k]) && nextfd >= fd[k]
 //@   loop 0: decreases len(files) - rangeindex
+
+// childExitError*: report {err, location[, index]} on the sync socket and exit; never return.
+//@ func pkg/forkexec.childExitError props C07
+//@   arith int
+//@   noreturn
+//@   assigns K.last_trap, K.last_errno, K.sync_stage, K.sync_wfile, K.reported, K.reported_loc, K.reported_err, K.reported_idx
+//@   abstracts K.reported && K.reported_loc == int(loc) && K.reported_err == uintptr(err) && K.reported_idx == 0
+//@   callsite syscall.RawSyscall when trap == 1: assert a1 == uintptr(pipe) && deref_as(ptr(a2), ChildError).Err == err && deref_as(ptr(a2), ChildError).Location == loc && deref_as(ptr(a2), ChildError).Index == 0 && a3 == 24
+//@   loop 0: invariant true
+//@   ensures false
+
+//@ func pkg/forkexec.childExitErrorWithIndex props C07
+//@   arith int
+//@   noreturn
+//@   assigns K.last_trap, K.last_errno, K.sync_stage, K.sync_wfile, K.reported, K.reported_loc, K.reported_err, K.reported_idx
+//@   abstracts K.reported && K.reported_loc == int(loc) && K.reported_err == uintptr(err) && K.reported_idx == idx
+//@   callsite syscall.RawSyscall when trap == 1: assert a1 == uintptr(pipe) && deref_as(ptr(a2), ChildError).Err == err && deref_as(ptr(a2), ChildError).Location == loc && deref_as(ptr(a2), ChildError).Index == idx && a3 == 24
+//@   loop 0: invariant true
+//@   ensures false
+
+// The launch sequence in the child. Model K (spec/kernel_K.contracts) gives every raw
+// system call its documented effect on the ghost child state; every call may fail.
+// int mode: descriptor shuffle (C06), frame (C06), error reporting (C07), rlimits (C08).
+// bv mode: flag words and the exec-point security state (C03, C04, C05, C07).
+//@ func pkg/forkexec.forkAndExecInChild props C06
+//@   arith int
+//@   requires r != nil
+//@   requires forall k int :: 0 <= k && k < len(r.Files) ==> r.Files[k] < 2147483648 || r.Files[k] == 18446744073709551615
+//@   requires 0 <= p[0] && p[0] < 2147483648 && 0 <= p[1] && p[1] < 2147483648 && p[0] != p[1]
+//@   requires r.ExecFile < 2147483648 && len(r.Files) < 1048576
+//@   requires len(argv) >= 1 && len(env) >= 1
+//@   assume forall j int :: K.fdt[j] != 0 ==> K.clo[j]
+//@   assume K.fdt[p[1]] != 0
+//@   assume forall k int :: 0 <= k && k < len(r.Files) ==> r.Files[k] != p[0]
+//@   assigns K.fdt, K.clo, K.pid, K.secbits, K.caps_empty, K.nnp, K.filter, K.filter_flags, K.uid, K.uid_set, K.gid, K.gid_set, K.groups_set, K.ngroups, K.groups_ptr, K.sid_new, K.ctty, K.cwd, K.host, K.hostlen, K.host_issued, K.domain, K.domainlen, K.domain_issued, K.clone_flags, K.clone3, K.clone_cgroup, K.mnt_src, K.mnt_type, K.mnt_flags, K.mnt_data, K.mnt_done, K.remount, K.remount_done, K.nmount, K.pivoted, K.pivot_new, K.pivot_old, K.old_detached, K.old_removed, K.rl_cur, K.rl_max, K.rl_set, K.traceme, K.stopped_self, K.sync_stage, K.sync_wfile, K.sync_rfile, K.idmap_read, K.unshare_cgroup_issued, K.last_trap, K.last_errno, K.reported, K.reported_loc, K.reported_err, K.reported_idx, K.exec_attempts
+//@   loop 0: invariant nextfd > len(fd) && nextfd + ite(pipe >= nextfd, 1, 0) <= 2147483651
+//@   loop 0: invariant forall k int :: 0 <= k && k < len(fd) ==> fd[k] < nextfd
+//@   loop 0: decreases ite(pipe >= nextfd, 1, 0)
+//@   loop 1: invariant 0 <= i && i <= len(fd) && nextfd > len(fd) && nextfd <= 2147483652 + 3 * i
+//@   loop 1: invariant fresh(fd) && soff(fd) == 0
+//@   loop 1: invariant len(fd) == len(old(r.Files)) && pipe >= len(fd) && K.fdt[pipe] == old(K.fdt[p[1]]) && K.clo[pipe]
+//@   loop 1: invariant forall k int :: 0 <= k && k < len(fd) ==> -1 <= fd[k] && fd[k] < nextfd
+//@   loop 1: invariant forall k int :: 0 <= k && k < len(fd) ==> (fd[k] == -1 <==> old(r.Files[k]) == 18446744073709551615)
+//@   loop 1: invariant forall k int :: 0 <= k && k < i ==> fd[k] == -1 || fd[k] >= k
+//@   loop 1: invariant forall k int :: 0 <= k && k < len(fd) && fd[k] != -1 ==> K.fdt[fd[k]] == old(K.fdt[r.Files[k]])
+//@   loop 1: invariant forall j int :: j >= len(fd) && K.fdt[j] != 0 ==> K.clo[j]
+//@   loop 1: decreases len(fd) - i
+//@   loop 2: invariant nextfd > len(fd) && nextfd + ite(pipe >= nextfd, 1, 0) + ite(int(execFile) >= nextfd, 1, 0) <= 2147483654 + 3 * i
+//@   loop 2: invariant forall k int :: 0 <= k && k < len(fd) ==> fd[k] < nextfd
+//@   loop 2: decreases ite(pipe >= nextfd, 1, 0) + ite(int(execFile) >= nextfd, 1, 0)
+//@   loop 3: invariant 0 <= i && i <= len(fd) && len(fd) == len(old(r.Files))
+//@   loop 3: invariant fresh(fd) && soff(fd) == 0
+//@   loop 3: invariant pipe >= len(fd) && K.fdt[pipe] == old(K.fdt[p[1]]) && K.clo[pipe]
+//@   loop 3: invariant forall k int :: 0 <= k && k < len(fd) ==> (fd[k] == -1 <==> old(r.Files[k]) == 18446744073709551615)
+//@   loop 3: invariant forall k int :: 0 <= k && k < i ==> (fd[k] == -1 && K.fdt[k] == 0) || (fd[k] != -1 && K.fdt[k] == old(K.fdt[r.Files[k]]) && !K.clo[k])
+//@   loop 3: invariant forall k int :: i <= k && k < len(fd) ==> fd[k] == -1 || (fd[k] >= k && fd[k] < 2160000000 && K.fdt[fd[k]] == old(K.fdt[r.Files[k]]))
+//@   loop 3: invariant forall j int :: j >= len(fd) && K.fdt[j] != 0 ==> K.clo[j]
+//@   loop 3: decreases len(fd) - i
+//@   loop 4: invariant -1 <= rangeindex && rangeindex < len(old(r.Mounts))
+//@   loop 4: invariant forall k int :: 0 <= k && k < len(old(r.Files)) && old(r.Files[k]) == 18446744073709551615 ==> K.fdt[k] == 0
+//@   loop 4: invariant forall k int :: 0 <= k && k < len(old(r.Files)) && old(r.Files[k]) != 18446744073709551615 ==> K.fdt[k] == old(K.fdt[r.Files[k]]) && !K.clo[k]
+//@   loop 4: invariant forall j int :: j >= len(old(r.Files)) && K.fdt[j] != 0 ==> K.clo[j]
+//@   loop 5: invariant -1 <= rangeindex && rangeindex < len(m.Prefixes)
+//@   loop 6: invariant -1 <= rangeindex && rangeindex < len(old(r.RLimits))
+//@   loop 6: invariant forall k int :: 0 <= k && k < len(old(r.Files)) && old(r.Files[k]) == 18446744073709551615 ==> K.fdt[k] == 0
+//@   loop 6: invariant forall k int :: 0 <= k && k < len(old(r.Files)) && old(r.Files[k]) != 18446744073709551615 ==> K.fdt[k] == old(K.fdt[r.Files[k]]) && !K.clo[k]
+//@   loop 6: invariant forall j int :: j >= len(old(r.Files)) && K.fdt[j] != 0 ==> K.clo[j]
+//@   loop 7: invariant -1 <= rangeindex && rangeindex < 50
+//@   loop 7: invariant forall k int :: 0 <= k && k < len(old(r.Files)) && old(r.Files[k]) == 18446744073709551615 ==> K.fdt[k] == 0
+//@   loop 7: invariant forall k int :: 0 <= k && k < len(old(r.Files)) && old(r.Files[k]) != 18446744073709551615 ==> K.fdt[k] == old(K.fdt[r.Files[k]]) && !K.clo[k]
+//@   loop 7: invariant forall j int :: j >= len(old(r.Files)) && K.fdt[j] != 0 ==> K.clo[j]
+//@   callsite syscall.RawSyscall6 when trap == 322: assert @C06 forall k int :: 0 <= k && k < len(old(r.Files)) && old(r.Files[k]) == 18446744073709551615 ==> K.fdt[k] == 0
+//@   callsite syscall.RawSyscall6 when trap == 322: assert @C06 forall k int :: 0 <= k && k < len(old(r.Files)) && old(r.Files[k]) != 18446744073709551615 ==> K.fdt[k] == old(K.fdt[r.Files[k]]) && !K.clo[k]
+//@   callsite syscall.RawSyscall6 when trap == 322: assert @C06 forall j int :: j >= len(old(r.Files)) && K.fdt[j] != 0 ==> K.clo[j]
+//@   callsite syscall.RawSyscall when trap == 59: assert @C06 forall k int :: 0 <= k && k < len(old(r.Files)) && old(r.Files[k]) == 18446744073709551615 ==> K.fdt[k] == 0
+//@   callsite syscall.RawSyscall when trap == 59: assert @C06 forall k int :: 0 <= k && k < len(old(r.Files)) && old(r.Files[k]) != 18446744073709551615 ==> K.fdt[k] == old(K.fdt[r.Files[k]]) && !K.clo[k]
+//@   callsite syscall.RawSyscall when trap == 59: assert @C06 forall j int :: j >= len(old(r.Files)) && K.fdt[j] != 0 ==> K.clo[j]
+
+// NUL-terminated constant strings handed to the kernel: non-empty, so &x[0] is in range.
+//@ global pkg/forkexec.none props C05: invariant len(none) == 5
+//@ global pkg/forkexec.slash props C05: invariant len(slash) == 2
+//@ global pkg/forkexec.empty props C05: invariant len(empty) == 1
+//@ global pkg/forkexec.tmpfs props C05: invariant len(tmpfs) == 6
+//@ global pkg/forkexec.oldRoot props C05: invariant len(oldRoot) == 9
+//@ global pkg/forkexec._AT_FDCWD props C05: invariant _AT_FDCWD == -100
+//@ global pkg/forkexec.dropCapHeader props C04: invariant dropCapHeader.Version == 537396514 && dropCapHeader.Pid == 0
+//@ global pkg/forkexec.dropCapData props C04: invariant dropCapData.Effective == 0 && dropCapData.Permitted == 0 && dropCapData.Inheritable == 0
